@@ -21,7 +21,7 @@ from .common import Discard
 
 ID = "C15"
 ENVS = ["absent", "present", "broken", "absent"]
-RUNS = {"quick": 1600, "thorough": 24000}
+RUNS = {"quick": 8000, "thorough": 80000}
 RULE = ("case = (dataset, scheme, history of 5-40 operations on shared objects: algorithm runs with RNG schedules, "
         "score/description reads of earlier consensuses, partitions, scheme arithmetic, derivations, file write, and "
         "optionally one solver-peer fault at the k-th solve); distinct = distinct case digest; non-trivial = at least "
